@@ -177,6 +177,16 @@ func (e *Engine) registerCore() {
 		p.side["permute"] = a[0].(BoolV).T.IsTrue()
 		return nil
 	}
+	I["vrt.PermuteOneMap"] = func(p *Path, a []Value, site ssa.Instruction) Value {
+		if a[0].(BoolV).T.IsTrue() {
+			p.side["permute"] = "one"
+			p.side["permuted"] = false
+			p.side["permuteHere"] = false
+		} else {
+			p.side["permute"] = false
+		}
+		return nil
+	}
 	I["vrt.Repeat"] = func(p *Path, a []Value, site ssa.Instruction) Value { return mkInt(1) }
 	I["golang.org/x/exp/maps.Keys"] = func(p *Path, a []Value, site ssa.Instruction) Value {
 		it := p.mkRange(a[0], site).(*RangeIter)
